@@ -208,14 +208,31 @@ func ruleR3_5(w *World, r *Report) {
 		// ---- maxCost ----
 		{
 			var bad []string
-			mphi, ok := Mv.(*ssa.Phi)
-			if !ok || len(mphi.Edges) != 2 {
+			// the alternatives the total is chosen from: edges of a merge phi, or the values returned by a helper
+			type leaf struct {
+				v   ssa.Value
+				blk *ssa.BasicBlock
+			}
+			var leaves []leaf
+			if mphi, ok := Mv.(*ssa.Phi); ok && len(mphi.Edges) == 2 {
+				for i, e := range mphi.Edges {
+					leaves = append(leaves, leaf{e, mphi.Block().Preds[i]})
+				}
+			} else if mc, ok := M.(*ssa.Call); ok && len(w.Callees[mc]) == 1 {
+				allInstrs(w.Callees[mc][0], func(ins ssa.Instruction) {
+					if ret, ok := ins.(*ssa.Return); ok && len(ret.Results) == 1 {
+						leaves = append(leaves, leaf{ret.Results[0], ret.Block()})
+					}
+				})
+			}
+			if len(leaves) != 2 {
 				bad = append(bad, "the total weight is not chosen between the number of cost literals and the sum of the weights")
 			} else {
 				sawLen, sawSum := false, false
-				for i, e := range mphi.Edges {
+				for _, lf := range leaves {
+					e := lf.v
 					if isLenOf(e, func(x ssa.Value) bool { return isFieldLoadOf(x, "minLits") }) {
-						found, holds := underCond(mphi.Block().Preds[i], func(c ssa.Value) (bool, bool) {
+						found, holds := underCond(lf.blk, func(c ssa.Value) (bool, bool) {
 							bo, ok := c.(*ssa.BinOp)
 							if !ok || (bo.Op != token.EQL && bo.Op != token.NEQ) || !isFieldLoadOf(bo.X, "minWeights") || !isNilConst(bo.Y) {
 								return false, false
